@@ -115,6 +115,12 @@ func c02cases(tier string) []c02case {
 		}
 	}
 	// enforced schedules
+	for _, sh := range []string{"ste", "fork"} {
+		for n := 1; n <= 2; n++ {
+			cs = append(cs, c02case{shape: sh, n: n, scen: "prewait", hist: c02hists[1]})
+			cs = append(cs, c02case{shape: sh, n: n, scen: "prewait", hist: c02hists[2]})
+		}
+	}
 	for _, sh := range shapes1 {
 		cs = append(cs, c02case{shape: sh, n: 1, scen: "missed", hist: c02hists[0]})
 		cs = append(cs, c02case{shape: sh, n: 1, scen: "missed", hist: c02hists[2]})
@@ -373,6 +379,13 @@ func c02run(out *rec.Out, c c02case, rng *rec.Rng, tier string, stats map[string
 		ctl.Release("process.startwith." + pt)
 	}
 	switch c.scen {
+	case "prewait":
+		// a waiter that is there before the instance is started (a watcher goroutine launched right after NewProcess):
+		// no start event has fired, so its wait must not report completion; the instance is then started as usual
+		r.group(c02wait{"pre", false, 1, "tiny"}, c02tiny).Wait()
+		in.Quiesce(q)
+		in.Op("startall")
+		startAll()
 	case "missed":
 		// hold StartWith right after Trigger until the start event's traces have been broadcast (quiescence)
 		arr := hold("after_trigger")
